@@ -132,6 +132,8 @@ fn lam_try(x: int) -> int { try { let f = fn() -> int { 1 }; for i in 0..3 { if 
 fn after_lam_try(x: int) -> int { let r = lam_try(x); try { checked(x * 20); r += 1000; } catch e { r += 100; } r }
 fn describe(s: str, limit: int) -> str { "total: " + try { let sum = 100 + try { s.parse_int() } catch e { 0 }; if sum > limit { throw("over limit"); } sum.to_string() } catch e { "n/a" } }
 fn pick(_: int, x: int, _y: str) -> int { x }
+fn wb(n: int) -> int { let r = 0; try { let i = 0; while i < 5 { i += 1; if i == n { break; } if i == n + 3 { continue; } r += i; } } catch e { r = 0 - 1; } r }
+fn guarded(n: int) -> int { try { let a = wb(n); if n > 0 { throw("boom"); } a } catch e { 40 + n } }
 fn early(x: int) -> int { let y = 100 + if x > 0 { return x; } else { 1 }; y }
 fn nested_call(a: int, b: int) -> int { sub(b, a) * 2 + enc3(a, b, 0) }
 fn fact(n: int) -> int { if n <= 1 { 1 } else { n * fact(n - 1) } }
@@ -313,6 +315,8 @@ FUNCS = {
     "describe": (["str", "int"], "str", lambda a, g: ok(S("total: n/a")) if 100 > a[1][1] else ok(S("total: 100")), ()),
     # a parameter named `_` still takes its argument: the parameters after it receive theirs
     "pick": (["dig", "dig2", "str"], "int", lambda a, g: ok(a[1]), ()),
+    # break / continue out of a `while` inside a try block of a callee: the caller's handler is still installed afterwards
+    "guarded": (["dig"], "int", lambda a, g: ok(I(40 + a[0][1])) if a[0][1] > 0 else ok(I(12)), ()),
     "lam_try": (["dig"], "int", lambda a, g: ok(I(a[0][1] + 1)) if a[0][1] >= 0 else ok(I(-1)), ()),
     "after_lam_try": (["dig"], "int", lambda a, g: ok(I(a[0][1] + 1 + (100 if a[0][1] >= 1 else 1000))), ()),
     "fresh": (["str", "dig"], "int", lambda a, g: ok(I(1000 + 100 + 20 + a[1][1])), ()),
